@@ -599,9 +599,6 @@ pub fn triggers(src: &str, root: &SyntaxNode) -> Vec<&'static str> {
             // character of a markup line the final strip pass removes it (C11 asks for exactly that, C01 / C08
             // for the opposite)
             K::Text if f.node.text().chars().last().is_some_and(|c| c.is_whitespace() && !c.is_ascii()) => add("R72"),
-            // R73: a comment directly behind a list / enum / term marker (the body starts with it): a blank is
-            // put after the comment, so the body starts with a space element; only `repr` of the content shows it
-            K::ListItem | K::EnumItem | K::TermItem if f.node.children().any(|c| syn::is_comment(c.kind())) => add("R73"),
             // R12: a comment directly inside a heading (between marker and body)
             K::Heading
                 if f.node.children().any(|c| {
@@ -703,6 +700,11 @@ pub fn triggers(src: &str, root: &SyntaxNode) -> Vec<&'static str> {
                 // (or directly inside the item, between marker / colon and body)
                 if comment_first || f.node.children().any(|c| syn::is_comment(c.kind())) {
                     add("R9");
+                }
+                // R73: a comment directly behind the marker, before the body: a blank is put after it, the body
+                // then starts with a space element (visible only when the content is shown with `repr`)
+                if f.node.children().any(|c| syn::is_comment(c.kind())) {
+                    add("R73");
                 }
                 if f.node.children().any(|c| c.kind() == K::BlockComment && syn::has_nl(c.text())) {
                     add("R64");
